@@ -216,8 +216,8 @@ func c02WriteOrder(r *Run, wf *ssa.Function) {
 func c02Truncate(r *Run, mtTop *ssa.Function) {
 	p := r.P
 	nNil, nErr, nTrunc, nTread := 0, 0, 0, 0
-	var classify func(mt *ssa.Function, fcallParam *ssa.Parameter, msgOK func(base *Sym) bool, depth int)
-	classify = func(mt *ssa.Function, fcallParam *ssa.Parameter, msgOK func(base *Sym) bool, depth int) {
+	var classify func(mt *ssa.Function, fcallParam *ssa.Parameter, msgOK func(base *Sym) bool, depth int, treadCtx bool)
+	classify = func(mt *ssa.Function, fcallParam *ssa.Parameter, msgOK func(base *Sym) bool, depth int, treadCtx bool) {
 		fa := p.FA(mt)
 
 		// size(fcall) calls on the fcall parameter itself, and the msize loads
@@ -273,6 +273,15 @@ func c02Truncate(r *Run, mtTop *ssa.Function) {
 			if len(ret.Results) != 1 {
 				continue
 			}
+			conds := ret.Conds()
+			inTread := treadCtx
+			for _, c := range conds {
+				if e, ok := normCond(c).V.(*ssa.Extract); ok && c.Truth && e.Index == 1 {
+					if ta, ok := e.Tuple.(*ssa.TypeAssert); ok && isP9P(ta.AssertedType, "MessageTread") {
+						inTread = true
+					}
+				}
+			}
 			// a clause moved into a helper: `return ch.helper(fcall, msg)` — the helper's exits are exits of the partition
 			if c, ok := ret.Results[0].(*ssa.Call); ok && depth < 2 {
 				if g := staticCallee(&c.Call); g != nil && g.Blocks != nil && p.InModule(g) && g != mt {
@@ -291,17 +300,8 @@ func c02Truncate(r *Run, mtTop *ssa.Function) {
 						r.SawFn(fnName(g))
 						classify(g, fp, func(base *Sym) bool {
 							return mp != nil && strings.HasPrefix(base.K, "p:"+mp.Name()) && strings.HasSuffix(base.K, ".Data")
-						}, depth+1)
+						}, depth+1, inTread)
 						continue
-					}
-				}
-			}
-			conds := ret.Conds()
-			inTread := false
-			for _, c := range conds {
-				if e, ok := normCond(c).V.(*ssa.Extract); ok && c.Truth && e.Index == 1 {
-					if ta, ok := e.Tuple.(*ssa.TypeAssert); ok && isP9P(ta.AssertedType, "MessageTread") {
-						inTread = true
 					}
 				}
 			}
@@ -369,13 +369,106 @@ func c02Truncate(r *Run, mtTop *ssa.Function) {
 	fcallTop := mtTop.Params[1]
 	classify(mtTop, fcallTop, func(base *Sym) bool {
 		return strings.Contains(base.K, "ld(&p:"+fcallTop.Name()+".Message)") && strings.HasSuffix(base.K, ".Data")
-	}, 0)
+	}, 0, false)
 	r.Floor("partition", nNil, 3, "nil returns outside the Tread clause")
 	r.Floor("partition", nErr, 2, "overflow error returns")
 	r.Floor("twrite-truncation", nTrunc, 1, "truncating path")
 	_ = nTread
 
-	c02Tread(r, p.FA(mtTop), mtTop, fcallTop)
+	tc := findTreadClause(p, mtTop, fcallTop)
+	if tc == nil {
+		r.Undecided("tread-clamp", "maybeTruncate: Tread clause", mtTop.Pos(), "no comma-ok assertion to MessageTread found in maybeTruncate")
+		return
+	}
+	if tc.fn != mtTop {
+		r.SawFn(fnName(tc.fn))
+	}
+	c02Tread(r, p.FA(tc.fn), tc)
+}
+
+// treadClause: where the Tread clause of maybeTruncate lives — in maybeTruncate itself (msg is the asserted
+// message, okv the assertion's ok flag), or in a helper the clause returns the result of
+// (`return ch.clampTread(fcall, msg)`: msg is the helper's parameter, every exit of the helper is an exit of the clause).
+type treadClause struct {
+	fn    *ssa.Function
+	fcall ssa.Value
+	msg   ssa.Value
+	okv   ssa.Value // nil: the whole function is the clause
+}
+
+func (tc *treadClause) inClause(ret retSite) bool {
+	if tc.okv == nil {
+		return true
+	}
+	for _, cd := range ret.Conds() {
+		if nc := normCond(cd); nc.V == tc.okv && nc.Truth {
+			return true
+		}
+	}
+	return false
+}
+
+func findTreadClause(p *Prog, mt *ssa.Function, fcallParam ssa.Value) *treadClause {
+	var ta *ssa.TypeAssert
+	eachInstr(mt, func(in ssa.Instruction) {
+		if x, ok := in.(*ssa.TypeAssert); ok && isP9P(x.AssertedType, "MessageTread") && x.CommaOk {
+			ta = x
+		}
+	})
+	if ta == nil {
+		return nil
+	}
+	tc := &treadClause{fn: mt, fcall: fcallParam, msg: resultN(ta, 0), okv: resultN(ta, 1)}
+	for _, st := range storesToField(mt, fcallParam, "Message") {
+		if isP9P(p.FA(mt).Sym(st.Val).T, "MessageTread") {
+			return tc
+		}
+	}
+	// delegated: every exit of the clause returns the result of one helper call that receives fcall and the message
+	var deleg *ssa.Call
+	n, other := 0, 0
+	for _, ret := range returnSites(mt) {
+		if !tc.inClause(ret) || len(ret.Results) != 1 {
+			continue
+		}
+		if c, ok := ret.Results[0].(*ssa.Call); ok {
+			if g := staticCallee(&c.Call); g != nil && g.Blocks != nil && p.InModule(g) && g != mt {
+				if deleg != c {
+					n++
+				}
+				deleg = c
+				continue
+			}
+		}
+		other++
+	}
+	if deleg == nil || n != 1 || other != 0 {
+		return tc
+	}
+	g := staticCallee(&deleg.Call)
+	var fp, mp ssa.Value
+	for i, a := range deleg.Call.Args {
+		if i >= len(g.Params) {
+			break
+		}
+		a = stripConv(a)
+		if a == fcallParam {
+			fp = g.Params[i]
+		} else if a == tc.msg {
+			mp = g.Params[i]
+		} else if u, ok := a.(*ssa.UnOp); ok {
+			// the message loaded from its local copy
+			for _, rf := range referrers(tc.msg) {
+				if st, ok := rf.(*ssa.Store); ok && st.Val == tc.msg && st.Addr == u.X {
+					mp = g.Params[i]
+				}
+			}
+		}
+	}
+	if fp == nil || mp == nil {
+		return tc
+	}
+	return &treadClause{fn: g, fcall: fp, msg: mp}
 }
 
 func condStr(cs []Cond) string {
@@ -445,7 +538,8 @@ func c02TwriteTruncation(fa *FA, mt *ssa.Function, ret retSite, fcallParam ssa.V
 	return false, ""
 }
 
-func c02Tread(r *Run, fa *FA, mt *ssa.Function, fcallParam ssa.Value) {
+func c02Tread(r *Run, fa *FA, tc *treadClause) {
+	mt, fcallParam := tc.fn, tc.fcall
 	n := 0
 	for _, st := range storesToField(mt, fcallParam, "Message") {
 		s := fa.Sym(st.Val)
@@ -500,23 +594,19 @@ func c02Tread(r *Run, fa *FA, mt *ssa.Function, fcallParam ssa.Value) {
 			"the rewritten Tread differs from the original in more than Count: "+s.K)
 	}
 	r.Floor("tread-clamp", n, 1, "store of a rewritten MessageTread")
-	c02TreadFit(r, fa, mt, fcallParam)
+	c02TreadFit(r, fa, tc)
 }
 
 // c02TreadFit: on every exit of the Tread clause the count that goes out satisfies
 // count + msgmsize(empty Rread) <= msize and is never raised — decided wrap-aware over the uint32 arithmetic
 // (every combination of wrapping / not wrapping of the narrow unsigned operations is a case).
-func c02TreadFit(r *Run, fa *FA, mt *ssa.Function, fcallParam ssa.Value) {
+func c02TreadFit(r *Run, fa *FA, tc *treadClause) {
+	mt, fcallParam := tc.fn, tc.fcall
 	// anchors: the asserted Tread message, the measured reply size R, the channel msize M
-	var ta *ssa.TypeAssert
 	var rcall *ssa.Call
 	var msizeLoad ssa.Value
 	eachInstr(mt, func(in ssa.Instruction) {
 		switch x := in.(type) {
-		case *ssa.TypeAssert:
-			if isP9P(x.AssertedType, "MessageTread") && x.CommaOk {
-				ta = x
-			}
 		case *ssa.Call:
 			if calleeName(&x.Call) == "(*p9p.channel).msgmsize" {
 				if nf, ok := x.Call.Args[1].(*ssa.Call); ok && calleeName(&nf.Call) == "p9p.newFcall" {
@@ -529,12 +619,11 @@ func c02TreadFit(r *Run, fa *FA, mt *ssa.Function, fcallParam ssa.Value) {
 			}
 		}
 	})
-	if ta == nil || rcall == nil || msizeLoad == nil {
-		r.Undecided("tread-fit", "maybeTruncate: Tread clause anchors", mt.Pos(), "cannot find the Tread assertion, the measured reply size or the msize load")
+	if rcall == nil || msizeLoad == nil {
+		r.Undecided("tread-fit", "maybeTruncate: Tread clause anchors", mt.Pos(), "cannot find the measured reply size or the msize load")
 		return
 	}
-	msgVal := resultN(ta, 0)
-	okv := resultN(ta, 1)
+	msgVal := tc.msg
 	// the local copy of the message and its Count field
 	var msgAlloc *ssa.Alloc
 	for _, rf := range referrers(msgVal) {
@@ -548,13 +637,7 @@ func c02TreadFit(r *Run, fa *FA, mt *ssa.Function, fcallParam ssa.Value) {
 	}
 	nRet := 0
 	for _, ret := range returnSites(mt) {
-		inClause := false
-		for _, cd := range ret.Conds() {
-			if nc := normCond(cd); nc.V == okv && nc.Truth {
-				inClause = true
-			}
-		}
-		if !inClause || len(ret.Results) != 1 || !isNilConst(ret.Results[0]) {
+		if !tc.inClause(ret) || len(ret.Results) != 1 || !isNilConst(ret.Results[0]) {
 			continue
 		}
 		nRet++
